@@ -148,10 +148,7 @@ def b2i(b):
 
 
 # schemas used in VCs whose Lean proof is not (yet) in lemmas/: reported as ASSUMED LEMMAS in every evidence file
-ASSUMED_SCHEMAS = ['oappc schemas (clauses rendered as PB constraints): added after the third Lean pass',
-                   'iflips / iflip1 / idxcombs / neqprefix schemas of the != builder (the semantic core is Neq.lean neq_main; the list-level wrappers were added after the third Lean pass)',
-                   'tmaxabs_witness (tmpos), thaszero_witness (tzpos), thaszero_of_get: added after the third Lean pass (same shape as the proved ISeq witnesses)',
-                   'card2_store side condition: proved in Lean (CnfSem.card2_store) for FINITE pair sets only; that every edge set '
+ASSUMED_SCHEMAS = ['card2_store side condition: proved in Lean (CnfSem.card2_store) for FINITE pair sets only; that every edge set '
                    'is finite (built from the empty set by finitely many add/remove) is not expressible in the VCs']
 
 # ---------------------------------------------------------------------------------
